@@ -65,6 +65,7 @@ func vBegin(r *vRecord) {
 	vRec = r
 	vRes = &vResult{Harness: r.Harness}
 	vCounters = map[string]int{}
+	vGlobals0 = vGlobalsSnapshot()
 }
 
 func vNext(name string) uint64 {
@@ -210,6 +211,15 @@ func vRuneReader(name string, n int) io.Reader {
 
 func vTextReader(s string) io.Reader { return strings.NewReader(s) }
 
-// vSharedWrites: natively unknown (the engine counts stores to package-level
-// variables); 0 keeps replays consistent with a clean run.
-func vSharedWrites() int { return 0 }
+// vSharedWrites: the engine counts stores to package-level state; natively
+// the printed value of every package-level variable of the code under test
+// (vGlobalsSnapshot is generated from /repo's sources at check time) is
+// compared with its value when the harness started.
+var vGlobals0 string
+
+func vSharedWrites() int {
+	if vGlobalsSnapshot() != vGlobals0 {
+		return 1
+	}
+	return 0
+}
